@@ -44,6 +44,12 @@ def _build_pair(cx, sp, comp, idx):
     elif comp == 'weight':
         H2[idx][-1] = H2[idx][-1] + delta
         cx.assume(H2[idx][-1] > 0, check=False)
+    elif comp == 'knots_affine':
+        # the whole knot vector of one direction is mapped affinely (k -> alpha*k + beta): same shape, other domain
+        alpha = cx.real('alpha', lo=F(1, 10), hi=10)
+        beta = cx.real('beta', lo=-10, hi=10)
+        K2[idx] = [alpha * k + beta for k in K2[idx]]
+        delta = [k2 - k1 for k1, k2 in zip(K1[idx], K2[idx])]
     elif comp == 'knot':
         d, j = idx
         K2[d][j] = K2[d][j] + delta
@@ -79,16 +85,32 @@ def h_perturb(cx, sp, comp, idx):
     r_ba = (B == A)
     cx.check('symmetric', r_ab is r_ba or bool(r_ab) == bool(r_ba), 'A==B is %s, B==A is %s' % (r_ab, r_ba))
     cx.check('ne_is_not_eq', (A != B) == (not r_ab))
+    deltas = delta if isinstance(delta, list) else [delta]
     if r_ab:
         # reported equal: the change must be within the comparison tolerance
-        cx.check('equal_only_within_tolerance', cx.all_of([delta < TOL, delta > -TOL]))
+        cx.check('equal_only_within_tolerance', cx.all_of([c for dl in deltas for c in (dl < TOL, dl > -TOL)]))
     else:
         # reported different: the shapes must really differ
-        cx.check('unequal_only_if_changed', delta != 0)
+        cx.check('unequal_only_if_changed', cx.any_of([dl != 0 for dl in deltas]))
 
 
-def h_equivalence(cx, sp):
+def h_equivalence(cx, sp, edited=False):
     obj, info = shapes.build(cx, sp)
+    if edited:
+        # every view was read (and the shape compared) before, then one stored control point is overwritten through the
+        # list the getter hands out; whatever that does to the shape, the copy taken afterwards is a copy of it
+        for nm in ('ctrlpts', 'weights', 'ctrlptsw'):
+            getattr(obj, nm, None)
+        obj == obj
+        store = obj.ctrlptsw if obj.rational else obj.ctrlpts
+        E = cx.reals('E', len(store[1]))
+        if obj.rational:
+            cx.assume(E[-1] > 0, check=False)
+        try:
+            for d in range(len(E)):
+                store[1][d] = E[d]
+        except TypeError:
+            pass        # immutable points: nothing was changed
     cp = copy.deepcopy(obj)
     cx.check('reflexive', (obj == obj) is True)
     cx.check('deepcopy_equal', (obj == cp) is True)
@@ -97,8 +119,9 @@ def h_equivalence(cx, sp):
     cx.check('vs_none', (obj == None) is False)  # noqa
     cx.check('vs_number', (obj == 3) is False)
     # a second, independently built shape with the same definition
-    obj2, _ = shapes.build(cx, sp)
-    cx.check('same_definition_equal', (obj == obj2) is True)
+    if not edited:
+        obj2, _ = shapes.build(cx, sp)
+        cx.check('same_definition_equal', (obj == obj2) is True)
 
 
 def h_discrete(cx, sp, sp2, expect_equal=False):
@@ -159,6 +182,9 @@ def instances(tier):
     for sp in specs:
         nm = spec_name(sp)
         out.append(inst('%s equivalence' % nm, h_equivalence, sp=sp))
+        out.append(inst('%s equivalence after an edit through a getter list' % nm, h_equivalence, sp=sp, edited=True))
+        for d in range(len(sp['degs'])):
+            out.append(inst('%s knots %s affine' % (nm, shapes.DIRS[d]), h_perturb, sp=sp, comp='knots_affine', idx=d))
         sizes = [len(k) - d - 1 for k, d in zip(sp['kvs'], sp['degs'])]
         n = 1
         for s in sizes:
